@@ -1002,14 +1002,21 @@ class LogixDriver(CIPDriver):
         grouped_requests = [[]]
         current_group = grouped_requests[0]
         current_response_size = MULTISERVICE_READ_OVERHEAD
+        current_request_size = MULTISERVICE_READ_OVERHEAD
         for req, resp_size in read_requests:
-            if current_response_size + resp_size > self.connection_size:
+            # each member costs its own message (minus its sequence count) plus its offset in the packet
+            if (
+                current_response_size + resp_size > self.connection_size
+                or current_request_size + len(req.message) > self.connection_size
+            ):
                 current_group = []
                 grouped_requests.append(current_group)
                 current_response_size = MULTISERVICE_READ_OVERHEAD
+                current_request_size = MULTISERVICE_READ_OVERHEAD
 
             current_group.append(req)
             current_response_size += resp_size
+            current_request_size += len(req.message)
 
         # test if the first list is empty
         if grouped_requests[0]:
